@@ -60,8 +60,19 @@ def c01(r):
         lhs = (s1 + p1) - (s0 + p0)
         slack = TOL_MASS + (0.05 * zsoil if row[F_CR] != 0 or ctx["water_table"] == 1 else 0.0)
         if not (abs(lhs - rhs) <= slack) or math.isnan(lhs - rhs):
-            out.append(V("C01", "day-balance", r, t, "daily water balance does not close",
-                         lhs=lhs, rhs=rhs, diff=lhs - rhs, slack=slack, ledger=ledger_diag(ctx, d)))
+            over = np.asarray(d["th0"], dtype=float) > ctx["prof"]["th_s"] + 1e-12
+            from_init = np.array_equal(d["th0"], ctx["th_init"])
+            if over.any() and from_init:
+                # the day starts from the configured initial profile and that profile is above saturation
+                # (a depth-interpolated "Prop" specification across layers with different saturation):
+                # drainage discards the excess without reporting it (recorded finding, keyed to this start state)
+                i = int(np.argmax(over))
+                out.append(V("C01", "initial-profile-above-saturation", r, t,
+                             "the configured initial water content exceeds saturation in a compartment; the excess is discarded unreported on the first day",
+                             comp=i, th=float(d["th0"][i]), th_s=float(ctx["prof"]["th_s"][i]), diff=lhs - rhs))
+            else:
+                out.append(V("C01", "day-balance", r, t, "daily water balance does not close",
+                             lhs=lhs, rhs=rhs, diff=lhs - rhs, slack=slack, ledger=ledger_diag(ctx, d)))
         # carry-over between consecutive simulated days
         if prev is not None:
             same = np.array_equal(prev["th_end"], d["th0"]) and prev["pond_end"] == d["pond0"]
